@@ -11,9 +11,9 @@ Payloads = {0, 16379, 20000}
 Incs = {1, 5, 65535}
 IWSs = {0, 5, 70000}
 HdrClasses = {0, 1}
-MaxData = 3
+MaxData = 2
 MaxWU = 2
-MaxSet = 2
+MaxSet = 1
 MaxNoise = 1
 INIT Init
 NEXT Next
